@@ -124,7 +124,7 @@ def resolvers(ctx, db, rid1='C01.set-then-resolve', rid2='C01.verdict'):
                         ok = False; why = 'resolve() precedes set(): waiters are released before the payload is stored'
                     elif not _is_drop(f) and root.endswith('set_value') and len(outer_sets) != 1:
                         ok = False; why = 'the winner does not store its payload (set called %d times)' % len(outer_sets)
-                    elif any(s[1] != CP for s in outer_sets + ress):
+                    elif any(_pointee(s[1]) != CP for s in outer_sets + ress):
                         ok = False; why = 'set/resolve receiver is not the pointer obtained from claim()'
                     elif root.endswith('set_value') and not _is_drop(f) and len(outer_sets) == 1 and outer_sets[0][2].get('depth', 0) == 0 and \
                             len([a for a in (outer_sets[0][2].get('args') or []) if not a.get('default')]) != len(f['params']):
@@ -156,6 +156,28 @@ def resolvers(ctx, db, rid1='C01.set-then-resolve', rid2='C01.verdict'):
                        desc=(verdict_bad[0] if verdict_bad else None), trace=(fmt_trace(verdict_bad[1], limit=30) if verdict_bad else None))
 
 
+def _pointee(p):
+    """the pointer behind a receiver path: a member called on *(p) (through a reference bound to *p, or handed as *p to a closure or helper
+    that takes the future by reference) is called on the object p points to, exactly like p->member()"""
+    p = p or ''
+    for _ in range(4):
+        m = re.fullmatch(r'\*\((.*)\)', p) or re.fullmatch(r'&\(\*\((.*)\)\)', p)
+        if not m or m.group(1).count('(') != m.group(1).count(')') or _unbalanced(m.group(1)):
+            break
+        p = m.group(1)
+    return p
+
+
+def _unbalanced(t):
+    d = 0
+    for ch in t:
+        d += ch == '('
+        d -= ch == ')'
+        if d < 0:
+            return True
+    return d != 0
+
+
 def _verdict(f, ret):
     """constant bool handed to the suspend_point<bool> constructor that is returned; None when not constant"""
     e = f.ev(ret.get('ret_ev')) if ret.get('ret_ev') is not None else None
@@ -176,8 +198,12 @@ def receivers(ctx, db, rid='C01.claim-guards'):
         o = f.ev(e.get('recv_ev')) if e.get('recv_ev') is not None else None
         return classify_value(f, o, recv, 0)
 
-    def classify_value(f, o, recv, depth):
+    def classify_value(f, o, recv, depth, hops=0, fld=None):
         cls = norm(f.get('class') or '')
+        if o is None and _pointee(recv) != recv:
+            return classify_value(f, None, _pointee(recv), depth, hops, fld)      # (*p).set() is p->set()
+        if o is None and norm(fld or '') == FUT and re.search(r'(->|\.)_future$', recv or ''):
+            return 'async-future'       # the bound future named as a member expression (handed on as *_future) rather than read into a local
         if recv == 'this' and cls in ('cocls::future', 'cocls::future_common'):
             # the future storing into itself: only the set family delegating to a sibling (set -> set_ref) and the tagged constructors do that;
             # any other member that stores a payload into *this does so without the claim and without releasing the waiters
@@ -194,6 +220,15 @@ def receivers(ctx, db, rid='C01.claim-guards'):
             return 'async-future'
         if org is not None and org.k in ('use', 'read') and re.fullmatch(r'param:\w+', org.get('path') or ''):
             path = org['path']
+        if org is not None and org.k == 'decl' and org.get('ref') and hops < 4 and _pointee(org.get('init') or '') != (org.get('init') or ''):
+            # a reference local bound to the pointee (future<T> &target = *m;): the receiver is what the pointer is
+            return classify_value(f, None, _pointee(org['init']), depth, hops + 1)
+        m = re.fullmatch(r'capture:(\w+)', path or '')
+        if m and f.get('lambda') and hops < 4:
+            # a closure's capture is the value the creating function captured (its local / parameter, or the init-capture's initialiser)
+            src = _capture_source(db, f, m.group(1))
+            if src is not None:
+                return classify_value(src[0], None, src[1], depth, hops + 1)
         m = re.fullmatch(r'param:(\w+)', path or '')
         if m and depth < 3:
             # a parameter (of a helper): every call site must pass a value that is itself an accepted receiver
@@ -204,7 +239,7 @@ def receivers(ctx, db, rid='C01.claim-guards'):
                     if ce.k == 'call' and ce.get('callee_key') == f['key'] and idx is not None and idx < len(ce.get('args') or []):
                         a = ce['args'][idx]
                         ao = g.ev(a.get('ev')) if a.get('ev') is not None else None
-                        sites.append(classify_value(g, ao, a.get('path') or '', depth + 1))
+                        sites.append(classify_value(g, ao, a.get('path') or '', depth + 1, 0, a.get('field')))
             if sites and all(not s.startswith('other') and s != 'param-uncalled' for s in sites):
                 return sorted(set(sites))[0] + '-via-param'
             if not sites:
@@ -220,6 +255,22 @@ def receivers(ctx, db, rid='C01.claim-guards'):
                 seen.add(k)
                 c = classify(f, e)
                 ctx.ob(rid, f, e['loc'], not c.startswith('other'), '%s is called on %s' % (norm(e['callee']).split('::')[-1], c), desc='%s on a receiver that is not the claim result' % norm(e['callee']))
+
+
+def _capture_source(db, lf, name):
+    """(creating function instance, path) of what the closure lf captured under `name`"""
+    for pk in (lf.get('encl_key'), lf.get('parent_key')):
+        pf = db.get(pk, lf.get('parent_inst')) if pk else None
+        if pf is None:
+            continue
+        for e in pf.events():
+            if e.k == 'lambda' and e.get('fn_key') == lf['key']:
+                for c in e.get('captures', []):
+                    if c.get('name') == name:
+                        if c.get('init_capture') and c.get('init'):
+                            return pf, c['init']
+                        return pf, ('param:' if any(p_['name'] == name for p_ in pf['params']) else 'local:') + name
+    return None
 
 
 def dtor_and_assign(ctx, db, rid='C01.dtor-resolves'):
@@ -285,21 +336,93 @@ def async_side(ctx, db):
                     bad = 'set called twice'
                 elif len(ss) == 1:
                     i = index_of(tr, lambda ev: ev is ss[0])
-                    if nonnull_on_trace(tr, i, ss[0].get('recv')) is not True:
+                    if nonnull_on_trace(tr, i, _pointee(ss[0].get('recv'))) is not True:
                         bad = 'set on an untested bound-future pointer'
                     one += 1
             if one == 0 and not bad:
                 bad = 'no path stores the result'
             ctx.ob(rid, f, f['key'], bad is None, 'the coroutine result is stored into the bound future once, only if one is bound' + ('' if not bad else ' -- ' + bad), desc=bad)
     rid2 = ctx.rule('C01.bound-future-writers', 'WHO', 'async_promise::_future is written only by async::start_promise (from promise::claim()) and async::co_awaiter::await_suspend (the awaiter\'s own private future)')
-    found = who(db, lambda f, e: e.k == 'write' and field_of(e) == FUT and not e.get('init'))
-    check_who(ctx, rid2, found, {'cocls::async::start_promise', 'cocls::async::co_awaiter::await_suspend'}, 'write of async_promise::_future', db=db)
+    is_write = lambda f, e: e.k == 'write' and field_of(e) == FUT and not e.get('init')
+    found = who(db, is_write)
+    allowed = {'cocls::async::start_promise', 'cocls::async::co_awaiter::await_suspend'}
+    # a helper that contains the write is shared code: it may also be reached from a function outside the set as long as no feasible path of
+    # that function performs the write (release_coro(attach = false, nullptr) called by start_coro never gets to the assignment)
+    lenient = {fname: lst for fname, lst in found.items() if fname not in allowed and not who_ok(db, lst[0][0], allowed) and _writes_only_for(db, lst[0][0], allowed, is_write)}
+    check_who(ctx, rid2, {k_: v_ for k_, v_ in found.items() if k_ not in lenient}, allowed, 'write of async_promise::_future', db=db)
+    for fname, lst in sorted(lenient.items()):
+        f, e = lst[0]
+        ctx.ob(rid2, f, e.get('loc') or f['key'], True, '%s only from the allowed set (here: %s, on the paths of the allowed callers only)' % ('write of async_promise::_future', fname))
     for fname, lst in found.items():
-        if fname == 'cocls::async::start_promise':
-            f, e = lst[0]
-            o = f.ev(e.get('rhs_ev')) if e.get('rhs_ev') is not None else None
-            o = (value_origin(f, o) if o is not None else value_origin(f, e.get('rhs'))) or o
-            ctx.ob(rid2, f, e['loc'], o is not None and o.k == 'call' and norm(o.get('callee')) == CLAIM, 'start_promise binds the future obtained from promise::claim()', desc='start_promise binds something else than claim()')
+        if fname == 'cocls::async::co_awaiter::await_suspend' or who_ok(db, lst[0][0], {'cocls::async::co_awaiter::await_suspend'}):
+            continue          # the awaiter's own private future
+        # start_promise, or the helper that stores on its behalf: what is stored is the claim result (a helper's parameter is followed to its
+        # call sites; a caller that passes a literal null binds nothing)
+        f, e = lst[0]
+        o = f.ev(e.get('rhs_ev')) if e.get('rhs_ev') is not None else None
+        what = _bound_value(db, f, o, e.get('rhs'))
+        ctx.ob(rid2, f, e['loc'], what == 'claim', 'start_promise binds the future obtained from promise::claim()', desc='start_promise binds something else than claim()')
+
+
+def _feasible(tr):
+    """a path on which a branch tests a literal (a constant argument substituted for a helper's parameter) with the other outcome cannot run"""
+    for it in tr:
+        if it.k != 'branch':
+            continue
+        p = it.path or ''; v = bool(it.val)
+        while p.startswith('!(') and p.endswith(')'):
+            p = p[2:-1]; v = not v
+        if (p in ('false', '0', 'nullptr') and v) or (p in ('true', '1') and not v):
+            return False
+    return True
+
+
+def _writes_only_for(db, f, allowed, is_write):
+    """f (a helper that contains the reserved write) is called by functions outside `allowed` as well: is the write nevertheless performed
+    only on behalf of allowed functions - every other caller expands f on its paths (a helper of its class) and none of its feasible paths
+    reaches the write"""
+    cs = callers_of(db, f['nname'])
+    if not cs:
+        return False
+    T = htracer(db)
+    for c in sorted(cs):
+        if c in allowed or only_reached_from(db, c, allowed):
+            continue
+        for g in db.fns(c, lambdas=True):
+            trs = T.traces(g)
+            if T.truncated:
+                raise Broken('path bound exceeded in %s' % c)
+            for tr in trs:
+                if _feasible(tr) and any((it.k == 'write' and is_write(g, it)) or (it.k in ('call', 'construct') and not it.get('expanded') and norm(it.get('callee') or '') == f['nname'])
+                                         for it in tr):
+                    return False
+    return True
+
+
+def _bound_value(db, f, o, path, depth=0):
+    """'claim' when the value (event o / path) is the result of promise::claim(), followed through locals and - for a helper's parameter - to
+    every call site, where a literal null (nothing bound) is allowed next to at least one claim; otherwise a description of what it is"""
+    org = (value_origin(f, o) if o is not None else value_origin(f, path)) or o
+    if org is not None and org.k == 'call' and norm(org.get('callee')) == CLAIM:
+        return 'claim'
+    p = path
+    if org is not None and org.k in ('use', 'read') and re.fullmatch(r'param:\w+', org.get('path') or ''):
+        p = org['path']
+    m = re.fullmatch(r'param:(\w+)', p or '')
+    if m and depth < 3:
+        idx = next((i for i, p_ in enumerate(f['params']) if p_['name'] == m.group(1)), None)
+        sites = []
+        for g in db.all_instances():
+            for ce in g.events():
+                if ce.k == 'call' and ce.get('callee_key') == f['key'] and idx is not None and idx < len(ce.get('args') or []):
+                    a = ce['args'][idx]
+                    if (a.get('path') or '') in ('nullptr', '0', 'ctor(nullptr)') or (a.get('const') == 0 and a.get('ev') is None):
+                        sites.append('null')
+                    else:
+                        sites.append(_bound_value(db, g, g.ev(a['ev']) if a.get('ev') is not None else None, a.get('path'), depth + 1))
+        if sites and 'claim' in sites and all(s_ in ('claim', 'null') for s_ in sites):
+            return 'claim'
+    return 'other:%s' % (p or '?')
 
 
 STATE_FIELDS = ('cocls::future_common::_state', 'cocls::future::(anonymous)::_value', 'cocls::future::(anonymous)::_ptr_value', 'cocls::future::(anonymous)::_exception')
@@ -483,8 +606,14 @@ def has_value_agrees(ctx, db, rid='C01.has-value-agrees'):
             for tr in trs:
                 p = ret_expr(tr) or ''
                 neg = False
-                while p.startswith('!(') and p.endswith(')'):
-                    p = p[2:-1]; neg = not neg
+                for _ in range(6):
+                    while p.startswith('!(') and p.endswith(')') and not _unbalanced(p[2:-1]):
+                        p = p[2:-1]; neg = not neg
+                    # the answer may have a name (const bool empty = _state == not_value; return !empty;): judge the expression it names
+                    q = origin_in_trace(tr, len(tr), p)[0] if re.fullmatch(r'local:\w+(#\d+)?', p) else None
+                    if not q or q == p:
+                        break
+                    p = q
                 m_ = re.fullmatch(r'\((.+) (!=|==) decl:cocls::future_common::State::not_value\)', p)
                 src = (origin_in_trace(tr, len(tr), m_.group(1))[0] or m_.group(1)) if m_ else ''      # the state may be read into a local first
                 if not (m_ and re.search(r'_owner(->|\.)_state$', src) and ((m_.group(2) == '!=') != neg)):
